@@ -80,16 +80,16 @@ var (
 var (
 	shareSlices bool
 	sliceCache  = map[string][]string{}
-	cacheFrozen bool
 )
+
+var sliceMu sync.Mutex
 
 func split(s string) []string {
 	if shareSlices {
+		sliceMu.Lock()
+		defer sliceMu.Unlock()
 		if r, ok := sliceCache[s]; ok {
 			return r
-		}
-		if cacheFrozen {
-			return splitFresh(s)
 		}
 		r := splitFresh(s)
 		sliceCache[s] = r
@@ -145,10 +145,8 @@ func argPoint(lon, lat, alt float64) (*object.Point, error) {
 		if err != nil {
 			return nil, err
 		}
-		if !cacheFrozen {
-			pointCache[key] = p
-			madePoints = append(madePoints, madePoint{p, math.Float64bits(p.Lon()), math.Float64bits(p.Lat()), math.Float64bits(p.Alt())})
-		}
+		pointCache[key] = p
+		madePoints = append(madePoints, madePoint{p, math.Float64bits(p.Lon()), math.Float64bits(p.Lat()), math.Float64bits(p.Alt())})
 		return p, nil
 	}
 	p, err := object.NewPoint(lon, lat, alt)
